@@ -70,6 +70,7 @@ type Arm struct {
 	Conds  []Cond
 	Events []*Event
 	Next   map[string]*Val // loop iterations: value of each header phi on the back edge
+	Local  []*Event        // loop iterations: element stores into memory made on this path (no STORE event is emitted for those)
 }
 
 type Event struct {
